@@ -34,7 +34,12 @@ THEOREMS = ['C14_squeeze_closed_form', 'C14_content_layout',
             'C14_split_cell_void', 'C14_split_cell_material',
             'C14_front_layout', 'C14_surface_card_layout',
             'C14_surface_layout_invariant', 'C14_data_card_layout',
-            'C14_to_float_spellings']
+            'C14_to_float_spellings', 'C14_front_layout_plain',
+            'C14_blocks_layout_any', 'C14_front_metamorphic',
+            'C14_front_metamorphic_case', 'C14_surface_metamorphic',
+            'C14_split_cell_rendered', 'C14_cell_metamorphic',
+            'C14_material_cell_parsed', 'C14_split_likebut',
+            'C14_options_trailing_blank']
 TRUSTED = [
     'hand-written model coq/C14/Model.v (modelled, tied by execution only); '
     'regexes re-implemented as scanners: tied exhaustively on short strings '
